@@ -37,8 +37,19 @@ def miri_env(seed, rate, extra=''):
     return dict(ENV, CARGO_TARGET_DIR=os.path.join(TARGET, 'miri'), MIRIFLAGS=flags.strip())
 
 
+def known_args():
+    """--known arguments for the harness: findings listed (status known) in known_findings.json are recorded once per process and do
+    not count towards the harness's own limit of violations per process"""
+    try: ks = json.load(open(os.path.join(VERIF, 'known_findings.json'))).get('findings', [])
+    except Exception: return []
+    out = []
+    for k in ks:
+        if k.get('status') == 'known': out += ['--known', '%s|%s' % (k.get('property'), k.get('signature', ''))]
+    return out
+
+
 def miri_cmd(prop, seed, budget_ms, runs=1000000, only=None):
-    cmd = ['cargo', '+nightly', 'miri', 'run', '--offline', '--features', 'relaxed,uafbait', '--', '--profile', prop, '--seed', str(seed), '--miri', '--budget-ms', str(budget_ms), '--runs', str(runs)]
+    cmd = ['cargo', '+nightly', 'miri', 'run', '--offline', '--features', 'relaxed,uafbait', '--', '--profile', prop, '--seed', str(seed), '--miri', '--budget-ms', str(budget_ms), '--runs', str(runs)] + known_args()
     if only is not None: cmd += ['--only-run', str(only)]
     return cmd
 
